@@ -47,9 +47,13 @@ def insert_into(
     index, offset = a["index"], a["offset"]
     child = content.maybe_child(index)
     if offset == dist or cast("Node", child).is_text:
-        if parent and not parent.can_replace(index, index, insert):
+        # Validate the content that is actually built: when `dist` falls inside a
+        # text child the inserted content lands between the two halves of that text,
+        # and `append` may join adjacent text nodes.
+        result = content.cut(0, dist).append(insert).append(content.cut(dist))
+        if parent and not parent.type.valid_content(result):
             return None
-        return content.cut(0, dist).append(insert).append(content.cut(dist))
+        return result
     assert child
     # A child on an open side of the slice is only partly present; its content is
     # validated when the slice is placed (replace closes every joined node). A child
@@ -82,6 +86,10 @@ class Slice:
         return self.content.size - self.open_start - self.open_end
 
     def insert_at(self, pos: int, fragment: Fragment) -> Optional["Slice"]:
+        if pos < 0 or pos > self.size:
+            # outside the slice: beyond an open side the content would land next to
+            # the open node and change which node the slice is open through
+            return None
         content = insert_into(
             self.content,
             pos + self.open_start,
